@@ -524,11 +524,92 @@ def env_at(body, node, env=None, keep=()):
     return env
 
 
+PROG = None  # set by check.py: enables helper inlining in expr_at
+
+
+def _simple_body(fnode):
+    """statements of a helper that can be inlined: straight-line assignments followed by one return (docstring allowed)"""
+    body = list(fnode.body)
+    if body and isinstance(body[0], ast.Expr) and isinstance(body[0].value, ast.Constant) and isinstance(body[0].value.value, str):
+        body = body[1:]
+    if not body or not isinstance(body[-1], ast.Return) or body[-1].value is None:
+        return None
+    for s in body[:-1]:
+        if not isinstance(s, (ast.Assign, ast.AnnAssign)):
+            return None
+    if fnode.args.vararg or fnode.args.kwarg:
+        return None
+    return body
+
+
+class _Inline(ast.NodeTransformer):
+    def __init__(self, prog, fi, depth):
+        self.prog, self.fi, self.depth = prog, fi, depth
+
+    def visit_Call(self, node):
+        self.generic_visit(node)
+        if self.depth <= 0:
+            return node
+        try:
+            r = self.prog.resolve_call(self.fi, node)
+        except Exception:
+            return node
+        if not isinstance(r, FuncInfo) or r.node is getattr(self.fi, "node", None):
+            return node
+        if r.node.decorator_list and not getattr(r, "is_static", False):
+            return node
+        if r.cls is not None and not getattr(r, "is_static", False):
+            return node
+        body = _simple_body(r.node)
+        if body is None:
+            return node
+        m, errs = bind_args(r.node, node)
+        if errs:
+            return node
+        pos, kwo, _, _ = params_of(r.node)
+        env = {}
+        a = r.node.args
+        defaults = dict(zip(pos[len(pos) - len(a.defaults):], a.defaults))
+        defaults.update({k.arg: d for k, d in zip(a.kwonlyargs, a.kw_defaults) if d is not None})
+        for prm in pos + kwo:
+            if prm in m:
+                env[prm] = m[prm]
+            elif prm in defaults:
+                env[prm] = defaults[prm]
+            else:
+                return node
+        env = seq_env(body[:-1], env=env)
+        ret = _SubstEnv(env).visit(copy.deepcopy(body[-1].value))
+        ret = _Inline(self.prog, r, self.depth - 1).visit(ret)
+        return ast.copy_location(ret, node)
+
+
+def inline_calls(prog, fi, e, depth=2):
+    """replace calls of small package helpers (straight-line body + one return) by their returned expression"""
+    return _Inline(prog, fi, depth).visit(e)
+
+
 class _Fold(ast.NodeTransformer):
-    """(a, b)[0] -> a ; [a, b][1] -> b"""
+    """(a, b)[0] -> a ; [a, b][1] -> b ; X[..., slice(a, b)] -> X[..., a:b]"""
+
+    def visit_Call(self, node):
+        self.generic_visit(node)
+        return node
 
     def visit_Subscript(self, node):
         self.generic_visit(node)
+
+        def as_slice(e):
+            if isinstance(e, ast.Call) and isinstance(e.func, ast.Name) and e.func.id == "slice" and 1 <= len(e.args) <= 3 and not e.keywords:
+                a = list(e.args)
+                if len(a) == 1:
+                    return ast.Slice(lower=None, upper=a[0], step=None)
+                return ast.Slice(lower=a[0], upper=a[1], step=a[2] if len(a) == 3 else None)
+            return e
+        if isinstance(node.slice, ast.Tuple):
+            node.slice.elts = [as_slice(x) for x in node.slice.elts]
+        else:
+            node.slice = as_slice(node.slice)
         if isinstance(node.value, (ast.Tuple, ast.List)) and isinstance(node.slice, ast.Constant) and isinstance(node.slice.value, int) \
                 and -len(node.value.elts) <= node.slice.value < len(node.value.elts) and not any(isinstance(e, ast.Starred) for e in node.value.elts):
             return node.value.elts[node.slice.value]
@@ -542,7 +623,10 @@ def fold(e):
 def expr_at(fi, node, expr, keep=()):
     """`expr` evaluated symbolically at the program point of `node` inside fi; names in `keep` stay symbolic"""
     env = env_at(fi.node.body, node, keep=keep)
-    return fold(_SubstEnv(env).visit(copy.deepcopy(expr)))
+    out = fold(_SubstEnv(env).visit(copy.deepcopy(expr)))
+    if PROG is not None:
+        out = fold(inline_calls(PROG, fi, out))
+    return out
 
 
 # ----------------------------------------------------------------------------- table access paths
